@@ -45,4 +45,5 @@ for f in sorted(per):
     if n >= 10 and c < 0.6 * n:
         print("%6.1f%%  %4d/%-4d %s" % (100.0 * c / n, c, n, f.replace("github.com/attestantio/dirk/", "")))
 PY
+[ -n "${KEEP:-}" ] && cp "$W/all.cov" /dev/shm/verif-all.cov
 cat /verif/tools/coverage.txt
